@@ -36,7 +36,8 @@ def check(tier, replay):
         gens=[("hdiff: A against itself; every single-point mutation (30 targets: first/middle/last element of datasets of every number type, chunked, compressed, unlimited, 1.2 MB; Vdata records incl. NO_INTERLACE; pixels and components of images; a dataset attribute; a global attribute; an added dataset) compared in both orders under every option (none, -d, -D, -g, -s)", "Gen_Tools.tla", "Gen_Tools_hdiff.cfg", "cover", {"sample": 1200}),
               ("hdp dumpsds/dumpgr -d of the roster objects against the API", "Gen_Tools.tla", "Gen_Tools_dump.cfg", "cover", {}),
               ("hdp dumpsds -d of datasets of every number type, dumpvd -d of Vdatas, against the API", "Gen_Tools.tla", "Gen_Tools_dumpmixed.cfg", "cover", {}),
-              ("hdfimport: text input FP32/FP64/INT32/INT16 and binary input FP32/FP64(+ -n)/IN32/IN16/IN08, ranks 2 and 3", "Gen_Tools.tla", "Gen_Tools_import.cfg", "cover", {})],
+              ("hdp dumpvd -d of a 1.5 MB Vdata (150001 records), dumpsds -d of a 3.6 MB dataset", "Gen_Tools.tla", "Gen_Tools_dumpbig.cfg", "cover", {}),
+              ("hdfimport: text input FP32/FP64/INT32/INT16 and binary input FP32/FP64(+ -n)/IN32/IN16/IN08, ranks 2 and 3; several binary inputs of different types in one invocation", "Gen_Tools.tla", "Gen_Tools_import.cfg", "cover", {})],
         mutators={"Mutate", "HDiff", "Dump", "Import"}, need_actions=["HDiff"],
         tv_quick=3000, sig_fn=patterns, drive_timeout=300,
         assumptions=["the tools are built from /repo's working tree by bin/build_tools.sh",
